@@ -28,8 +28,8 @@ def _strategy(draw):
     if draw(st.integers(0, 3)) == 0:
         gen.rename_nodes(draw, spec)
     T = spec["grid"]["T"]
-    spec["split"] = draw(st.one_of(st.none(), st.none(), st.none(), st.sampled_from(["6h", "12h", "d"])))
-    if T >= 4 and draw(st.integers(0, 3 if spec["split"] else 9)) == 0:
+    spec["split"] = draw(st.one_of(st.none(), st.none(), st.sampled_from(["6h", "12h", "d"])))
+    if T >= 4 and draw(st.integers(0, 1 if spec["split"] else 9)) == 0:
         spec["gap"] = gen.make_gap(draw, spec)
     if draw(st.integers(0, 7)) == 0:
         # a penalty-priced slack source (cost coefficients far above the ordinary prices)
